@@ -593,6 +593,64 @@ let rcfg_check line =
   let want = rcfg_gen true minput in
   verdict (want = cut i) ("expected:" ^ String.concat "," (String.split_on_char ' ' want))
 
+(* ---- tb: tree building with a controlled registration order + the options every benchmark resolves to.
+   "t #E b/<module path>/<raw>/<display>/<options|-> .. g/.. [#R runner]" -> "D dump.. #O display:options .." ---- *)
+let split_on_sep s =   (* "a::b::c" -> ["a";"b";"c"]; "" -> [""] (str::split) *)
+  let n = String.length s in
+  let rec go i start acc =
+    if i + 1 < n && s.[i] = ':' && s.[i + 1] = ':' then go (i + 2) (i + 2) (String.sub s start (i - start) :: acc)
+    else if i >= n then List.rev (String.sub s start (n - start) :: acc)
+    else go (i + 1) start acc in
+  go 0 0 []
+
+let tb_parse secs =
+  let ents = List.map (fun tok -> match String.split_on_char '/' tok with
+      | [k; m; raw; disp; o] -> (k, split_on_sep m, raw, disp, parse_level o)
+      | _ -> failwith ("bad entry " ^ tok)) (nonempty (section secs "E")) in
+  let benches = List.filter (fun (k, _, _, _, _) -> k = "b") ents and groups = List.filter (fun (k, _, _, _, _) -> k = "g") ents in
+  let runner = (match nonempty (section secs "R") with [s] -> parse_fields s | _ -> o_default) in
+  (benches, groups, runner)
+
+let strip_raw s = if String.length s >= 2 && String.sub s 0 2 = "r#" then String.sub s 2 (String.length s - 2) else s
+let show_options_commas o = String.concat "," (String.split_on_char ' ' (show_options o))
+
+let tb_gen line =
+  let secs = sections line in
+  let (benches, groups, runner) = tb_parse secs in
+  let nth l i = List.nth l (int_of_nat i) in
+  (* a benchmark's path in the tree: its module path (the leaf is added below it) *)
+  let bench_paths = List.map (fun (_, m, _, _, _) -> List.map str m) benches in
+  let group_addrs = List.map (fun (_, m, raw, _, _) -> (List.map str m, str raw)) groups in
+  let tree = build_tree bench_paths group_addrs in
+  let rec dump depth ts = List.concat_map (function
+      | BLeaf b -> let (_, _, _, disp, _) = nth benches b in [Printf.sprintf "%d/L/%s" depth disp]
+      | BParent (raw, g, ch) ->
+        (match g with
+         | Some g -> let (_, _, _, disp, _) = nth groups g in Printf.sprintf "%d/G/%s" depth disp
+         | None -> Printf.sprintf "%d/P/%s" depth (strip_raw (unstr raw))) :: dump (depth + 1) ch) ts in
+  let gopt g = let (_, _, _, _, o) = nth groups g in o and bopt b = let (_, _, _, _, o) = nth benches b in o in
+  let resolved = options_on_tree runner gopt bopt tree in
+  "D " ^ String.concat " " (dump 0 tree) ^ " #O "
+  ^ String.concat " " (List.map (fun (b, o) -> let (_, _, _, disp, _) = nth benches b in disp ^ ":" ^ show_options_commas o) resolved)
+
+let tb_check line =
+  let (c, i) = split_sb line in
+  let isecs = sections i in
+  match nonempty (section isecs "") with
+  | "D" :: _ ->
+    let (benches, groups, runner) = tb_parse (sections c) in
+    let group_addrs = List.map (fun (_, m, raw, _, _) -> (List.map str m, str raw)) groups in
+    let gopt g = let (_, _, _, _, o) = List.nth groups (int_of_nat g) in o in
+    (* every benchmark once, with the options of the nearest enclosing groups (last registered group per module) *)
+    let want = List.sort compare (List.map (fun (_, m, _, disp, o) ->
+        disp ^ ":" ^ show_options_commas (spec_options_of_bench runner group_addrs gopt o (List.map str m))) benches) in
+    let got = List.sort compare (nonempty (section isecs "O")) in
+    if want = got then "true"
+    else (match List.filter (fun w -> not (List.mem w got)) want with
+        | w :: _ -> verdict false ("expected:" ^ w ^ "-observed:" ^ String.concat "|" (List.filter (fun g -> String.sub g 0 (String.index g ':') = String.sub w 0 (String.index w ':')) got))
+        | [] -> verdict false "a-benchmark-appears-more-than-once")
+  | _ -> verdict false ("outcome:" ^ i)
+
 let dispatch mode line =
   match mode with
   | "ismatch" -> ismatch line
@@ -613,6 +671,8 @@ let dispatch mode line =
   | "ropt.sb" -> ropt_check line
   | "rcfg" -> rcfg_gen false line
   | "rcfg.sb" -> rcfg_check line
+  | "tb" -> tb_gen line
+  | "tb.sb" -> tb_check line
   | "tim" -> tim_gen false line
   | "tim.sb" -> tim_check line
   | _ -> failwith ("unknown mode " ^ mode)
